@@ -51,15 +51,13 @@ def H.allocList (h : H) (l : List Item) : H × Slice :=
 def H.allocStruct (h : H) (v : Slice) : H × Nat := ({ h with structs := h.structs ++ [v] }, h.structs.length)
 
 /-- a value built by the caller: a struct with its own array -/
-def H.allocValue (h : H) (l : List Item) : H × Nat :=
-  let (h1, v) := h.allocList l
-  h1.allocStruct v
+def H.allocValue (h : H) (l : List Item) : H × Nat := (h.allocList l).1.allocStruct (h.allocList l).2
 
 /-- DataCopy: a copy of the struct, sharing the backing array -/
 def dataCopy (h : H) : H × Option Nat :=
   match h.store with
   | none => (h, none)
-  | some s => let (h, c) := h.allocStruct (h.field s); (h, some c)
+  | some s => ((h.allocStruct (h.field s)).1, some (h.allocStruct (h.field s)).2)
 
 /-- the `*FilterType` argument: nil, a filter without selector / elements (`Data()` fails), or one with data -/
 inductive FArg
@@ -87,7 +85,7 @@ deriving Repr, DecidableEq
 def H.ensureStore (h : H) : H × Nat :=
   match h.store with
   | some s => (h, s)
-  | none => let (h, s) := h.allocStruct none; ({ h with store := some s }, s)
+  | none => ({ (h.allocStruct none).1 with store := some h.structs.length }, h.structs.length)
 
 /-- the in-place effect of an engine call on the backing array of the stored slice -/
 def H.writeBack (h : H) (cur : Slice) (inplace : List Item) : H :=
@@ -95,22 +93,26 @@ def H.writeBack (h : H) (cur : Slice) (inplace : List Item) : H :=
   | some (a, n) => { h with arrays := h.arrays.set a (inplace ++ ((h.arrays[a]?).getD []).drop n) }
   | none => h
 
+/-- what the engine's result does to the heap: in-place effects on the stored array; a fresh result list gets a
+    new array and, if the call succeeded and persists, becomes the stored list (a result that is the stored
+    slice itself — same array, same length — changes nothing when assigned back); the data handed back to the
+    caller (on success) is a struct of its own around the result slice -/
+def applyRes (h1 : H) (s : Nat) (persist : Bool) (inp : Nat) (r : Res) : H × UpdRes :=
+  let cur := h1.field s
+  let h2 := h1.writeBack cur r.inplace
+  let v : Slice := if r.fresh then (h2.allocList r.out).2 else cur
+  let h3 := if r.fresh then (h2.allocList r.out).1 else h2
+  let h4 := if r.fresh && r.ok && persist then { h3 with structs := h3.structs.set s v } else h3
+  if r.ok then ((h4.allocStruct v).1, .done true inp (some (h4.allocStruct v).2)) else (h4, .done false inp none)
+
 /-- the engine path of `UpdateData` (any filter, or no persistence): the per-type `UpdateList` on the store -/
 def engine (c : Cfg) (sh : Shape) (h : H) (remote persist : Bool) (nw : List Item) (fp fd : Option Filter)
     (inp : Nat) : H × UpdRes :=
-  let (h, s) := h.ensureStore
-  let cur := h.field s
-  match updateListF c.u sh remote (h.slice cur) nw fp fd with
-  | .panic _ => (h, .panic)
-  | .ok r =>
-    let h := h.writeBack cur r.inplace
-    if r.fresh then
-      let (h, v) := h.allocList r.out
-      let h := if r.ok && persist then { h with structs := h.structs.set s v } else h
-      if r.ok then let (h, o) := h.allocStruct v; (h, .done true inp (some o)) else (h, .done false inp none)
-    else
-      -- the returned slice is the stored one (same array, same length); assigning it back changes nothing
-      if r.ok then let (h, o) := h.allocStruct cur; (h, .done true inp (some o)) else (h, .done false inp none)
+  let h1 := h.ensureStore.1
+  let s := h.ensureStore.2
+  match updateListF c.u sh remote (h1.slice (h1.field s)) nw fp fd with
+  | .panic _ => (h1, .panic)
+  | .ok r => applyRes h1 s persist inp r
 
 /-- does this call take the replace fast path -/
 def fastPath (c : Cfg) (h : H) (remote persist : Bool) (fp fd : FArg) : Bool :=
@@ -118,14 +120,14 @@ def fastPath (c : Cfg) (h : H) (remote persist : Bool) (fp fd : FArg) : Bool :=
 
 /-- `FunctionData.UpdateData(remoteWrite, persist, newData, filterPartial, filterDelete)` -/
 def updateData (c : Cfg) (sh : Shape) (h : H) (remote persist : Bool) (nw : List Item) (fp fd : FArg) : H × UpdRes :=
-  let (h, inp) := h.allocValue nw
-  if fastPath c h remote persist fp fd then
-    ({ h with store := some inp }, .done true inp (some inp))
-  else engine c sh h remote persist nw fp.toOpt fd.toOpt inp
+  let h0 := (h.allocValue nw).1
+  let inp := (h.allocValue nw).2
+  if fastPath c h0 remote persist fp fd then
+    ({ h0 with store := some inp }, .done true inp (some inp))
+  else engine c sh h0 remote persist nw fp.toOpt fd.toOpt inp
 
 /-- shorthand used by the witnesses: a local, persisting, filter-less update (`SetData`) -/
 def full (h : H) (items : List Item) : H × Nat :=
-  let (h, inp) := h.allocValue items
-  ({ h with store := some inp }, inp)
+  ({ (h.allocValue items).1 with store := some (h.allocValue items).2 }, (h.allocValue items).2)
 
 end Spine.Heap
